@@ -297,11 +297,12 @@ func Compare(a, b *Outcome) string {
 		return d
 	}
 	// host-side calls after the module finished
-	if len(a.Post) != len(b.Post) {
-		return fmt.Sprintf("host-side calls: %d on the implementation, %d on the reference", len(a.Post), len(b.Post))
-	}
-	for i, pa := range a.Post {
-		pb := b.Post[i]
+	// (either side stops after a call that ran out of its step budget; the budgets are not comparable)
+	for i := 0; i < len(a.Post) || i < len(b.Post); i++ {
+		if i >= len(a.Post) || i >= len(b.Post) {
+			return fmt.Sprintf("host-side calls: %d on the implementation, %d on the reference", len(a.Post), len(b.Post))
+		}
+		pa, pb := a.Post[i], b.Post[i]
 		what := fmt.Sprintf("host-side call %s%s after the module finished: ", pa.Name, pa.Args)
 		if pa.Name != pb.Name || pa.Args != pb.Args {
 			return what + fmt.Sprintf("the reference sees %s%s (parameter metadata differs)", pb.Name, pb.Args)
